@@ -35,6 +35,9 @@ open L
 @[simp] theorem setC_called (x : FCfg) (c : Cfg) : (x.setC c).called = x.called := rfl
 @[simp] theorem setC_rep (x : FCfg) (c : Cfg) : (x.setC c).rep = x.rep := rfl
 
+@[simp] theorem bind_ok (y : FCfg) (f : FCfg → Res) : bind (y, none) f = f y := rfl
+@[simp] theorem bind_err (y : FCfg) (e : Exc) (f : FCfg → Res) : bind (y, some e) f = (y, some e) := rfl
+
 /-- the lifecycle part of `Inv2` without the count of terminal notifications (a fault that fires after the listeners were told
 about the state entered makes them hear about two terminal states) -/
 structure Inv2w (c : Cfg) : Prop where
@@ -68,9 +71,12 @@ def afterClose (a : Arm) : Bool := a.after && (a.hk == .onTerminated || a.hk == 
 def ArmOk (a0 : Arm) (x : FCfg) : Prop :=
   (∀ b, x.arm = some b → b.hk = a0.hk ∧ b.after = a0.after) ∧ (x.fired = true → x.arm = none)
 
-/-- the state machine's own "cannot transition" error met the fault inside the failing transition -/
+/-- an error of the state machine itself -/
+def Internal (e : Exc) : Prop := e = .assertion ∨ e = .invalidState ∨ ∃ a b, e = .noTransition a b
+
+/-- an error of the state machine itself ("cannot transition", a failed assertion) met the fault inside the failing transition -/
 def Bad (a0 : Arm) (x : FCfg) : Prop :=
-  mainHK a0.hk = true ∧ x.fired = true ∧ ∃ a b, x.l.c.st = .excepted (.noTransition a b)
+  mainHK a0.hk = true ∧ x.fired = true ∧ ∃ e, Internal e ∧ x.l.c.st = .excepted e
 
 def Kg (a0 : Arm) (x : FCfg) : Prop :=
   Inv2w x.l.c ∧ (mainHK a0.hk = true → x.fired = true → x.l.c.st = .excepted faultExc)
@@ -97,8 +103,8 @@ theorem ArmOk.fr {a0 : Arm} {x y : FCfg} (h : ArmOk a0 x) (f : Fr x y) : ArmOk a
 
 theorem K.fr {a0 : Arm} {x y : FCfg} (h : K a0 x) (f : Fr x y) : K a0 y := by
   refine ⟨h.arm.fr f, by rw [f.trans]; exact h.tr, ?_⟩
-  rcases h.g with ⟨hm, hf, a, b, hs⟩ | ⟨hi, he⟩
-  · exact Or.inl ⟨hm, by rw [f.fired]; exact hf, a, b, by rw [f.st]; exact hs⟩
+  rcases h.g with ⟨hm, hf, e, he, hs⟩ | ⟨hi, he⟩
+  · exact Or.inl ⟨hm, by rw [f.fired]; exact hf, e, he, by rw [f.st]; exact hs⟩
   · exact Or.inr ⟨hi.same2 f.s2, fun hm hf => by rw [f.st]; exact he hm (by rw [← f.fired]; exact hf)⟩
 
 /-- a pure update of the `Cfg` part that keeps what `Inv2` looks at and the state object -/
